@@ -9,6 +9,7 @@ PLAN = {
         "cmeta-id": 0.1, "old-spelling": 0.1, "extras": 0.1, "import": 0.03, "connection": 0.1,
         "special:explicit-none": 0.02, "special:spelling-in-math": 0.005, "special:split-groups": 0.01, "special:deep-extras": 0.02,
         "validator-accepts-original": 0.05,
+        "reuse-subcase": 0.2, "reuse:second-is-1.x": 0.1, "reuse:second-is-2.0": 0.05, "reuse:first-has-component-level-units": 0.05,
     },
 }
 CLAIM = {
